@@ -69,6 +69,8 @@ pub struct World {
     /// local port and transaction id of the pending DNS query (parsed from the query on the wire)
     pub dns_port: u16,
     pub dns_txid: u16,
+    /// the clock handed to the stack (fixed at 1.000 s for the table; moved by the timed part)
+    pub now_us: i64,
     pub setup_log: Vec<String>,
     pub errors: Vec<String>,
 }
@@ -86,6 +88,20 @@ impl World {
     /// unchanged (costs two extra image computations; done on the re-executions and in replay)
     #[allow(clippy::too_many_arguments)]
     pub fn new(med: Med, ver: Ver, layout: Layout, sock: Sock, joined: bool, primed: bool, strict: bool) -> World {
+        let mut table = address_table(ver, layout);
+        table.truncate(smoltcp::config::IFACE_MAX_ADDR_COUNT.max(1));
+        Self::build(med, ver, table, true, false, sock, joined, primed, strict)
+    }
+
+    /// Interface for the timed SLAAC part: stateless autoconfiguration on, only the link-local
+    /// address configured by hand, no static default route (routes come from advertisements).
+    pub fn new_slaac(med: Med, sock: Sock, strict: bool) -> World {
+        let a = addrs(Ver::V6);
+        Self::build(med, Ver::V6, vec![(a.my, 64)], false, true, sock, false, true, strict)
+    }
+
+    #[allow(clippy::too_many_arguments)]
+    fn build(med: Med, ver: Ver, table: Vec<(Addr, u8)>, default_route: bool, slaac: bool, sock: Sock, joined: bool, primed: bool, strict: bool) -> World {
         let mtu = match med {
             Med::Eth => 1514,
             Med::Ip => 1500,
@@ -99,14 +115,13 @@ impl World {
         };
         let mut config = Config::new(hw);
         config.random_seed = 0x1234_5678;
+        config.slaac = slaac;
         if med == Med::Lowpan {
             config.pan_id = Some(Ieee802154Pan(PAN_OWN));
         }
         let now = Instant::from_millis(NOW_MS);
         let mut iface = Interface::new(config, &mut dev, now);
         let a = addrs(ver);
-        let mut table = address_table(ver, layout);
-        table.truncate(smoltcp::config::IFACE_MAX_ADDR_COUNT.max(1));
         iface.update_ip_addrs(|l| {
             for (addr, plen) in &table {
                 l.push(IpCidr::new(to_ip(addr), *plen)).unwrap();
@@ -114,6 +129,7 @@ impl World {
         });
         let mut errors = vec![];
         match to_ip(&a.gw) {
+            _ if !default_route => {}
             IpAddress::Ipv4(g) => {
                 if iface.routes_mut().add_default_ipv4_route(g).is_err() {
                     errors.push("cannot add default route".into());
@@ -232,6 +248,7 @@ impl World {
             h_dns,
             dns_port: 0,
             dns_txid: 0,
+            now_us: NOW_MS * 1000,
             setup_log: vec![],
             errors,
         };
@@ -284,8 +301,8 @@ impl World {
         w
     }
 
-    fn now(&self) -> Instant {
-        Instant::from_millis(NOW_MS)
+    pub fn now(&self) -> Instant {
+        Instant::from_micros(self.now_us)
     }
 
     /// ARP request (Ethernet/IPv4) or neighbor solicitation with source link-layer option
